@@ -24,8 +24,8 @@ RULE = (
     "variables) into an axis set that already has metrics, or an overwrite; distinct = canonical JSON of the history."
 )
 ASSUMPTIONS = [
-    "batches are generated so that either no or every variable conflicts (stop-at-first-refusal and validate-first semantics "
-    "agree); a mixed-conflict batch ends the history and is checked only for: it raised, occupied slots unchanged",
+    "a batch is modelled exactly as the statement says - as its variables registered one at a time in order: the variables before "
+    "the first refused one are registered, the call raises, later variables are not reached",
 ]
 
 # pool: name -> (axes, positions)
@@ -107,7 +107,6 @@ class History:
         if self.ended:
             return
         key = spell_key(axes, spelling)
-        conflicts = [nm for nm in names if slot_of(nm) in self.model and not overwrite]
         before = dict(self.model)
         fs = frozenset(axes)
         if len(names) >= 2 and any(s[0] == fs for s in self.model):
@@ -116,13 +115,24 @@ class History:
         if overwrite and any(slot_of(nm) in self.model for nm in names):
             self.nontrivial = True
             self.classes.add("overwrite")
+        # the statement: a batch is equivalent to registering its variables one at a time, in order.  One at a time, the
+        # variables before the first refused one are registered, the refused one raises, the rest is never reached.
+        accepted, refused = [], None
+        for nm in names:
+            if slot_of(nm) in self.model and not overwrite:
+                refused = nm
+                break
+            accepted.append(nm)
+        if refused is not None and accepted:
+            self.classes.add("mixed-conflict")
+            self.nontrivial = True
         value = names[0] if (len(names) == 1 and spelling == "str") else list(names)
         try:
             self.grid.set_metrics(key, value, overwrite=overwrite)
             raised = None
         except Exception as e:  # noqa: BLE001
             raised = e
-        if not conflicts:
+        if refused is None:
             if raised is not None:
                 raise Violation("registration into free (or overwritable) slots was refused", key=jsonable(key), names=names, overwrite=overwrite,
                                 exception=type(raised).__name__, message=str(raised)[:200])
@@ -130,19 +140,16 @@ class History:
                 self.model[slot_of(nm)] = nm
                 self.success.append((tuple(axes), nm))
             self.check_registry("after registration")
-        elif len(conflicts) == len(names):
+        else:
             self.classes.add("refusal")
             if raised is None:
-                raise Violation("registering into an occupied slot without overwrite=True was not refused", key=jsonable(key), names=names)
+                raise Violation("registering into an occupied slot without overwrite=True was not refused", key=jsonable(key), names=names, refused=refused)
             self.model = before
-            self.check_registry("after a refused call (every slot must be as it was)")
-        else:
-            self.classes.add("mixed-conflict")
-            self.ended = True
-            if raised is None:
-                raise Violation("a call containing an occupied slot without overwrite=True was not refused", key=jsonable(key), names=names)
-            for nm in conflicts:
-                self.check_slot(slot_of(nm), before[slot_of(nm)], "occupied slot changed by a refused call")
+            for nm in accepted:
+                self.model[slot_of(nm)] = nm
+                self.success.append((tuple(axes), nm))
+            self.check_registry("after a call that was refused at variable %r (the variables before it are registered, as they would be one "
+                                "at a time; every other slot is as it was)" % refused)
 
     def query(self, xpos, ypos):
         if self.ended or self.grid is None:
